@@ -8,7 +8,7 @@ import (
 )
 
 func init() {
-	props["C12"] = &propDef{run: runC12, explanation: "C12 decided statically by a may-write effect analysis (engine E: whole call tree with interface calls resolved by class hierarchy over non-mock implementations, flow-insensitive, field-based, two-level Reach/Holds lattice): no store, map update, append, copy, delete, in-place sort or decode anywhere in the call trees of (*DocumentComposer).ApplyPatches and (*Applier).Apply targets memory reachable from their arguments (previous model and its document at any depth, anchored operation, patch values); values handed to external code go only to a reviewed read-only table; plus the atomic-failure shape: every return that may carry an error carries a nil document / nil model. Sound under the stated assumptions (no unsafe, no reflection writes; errors expose no mutable input reference). The applier-level clauses are the return-shape and provenance rules of C01, which run inside this check."}
+	props["C12"] = &propDef{extraPkgs: []string{jsonPatchPkg}, run: runC12, explanation: "C12 decided statically by a may-write effect analysis (engine E: whole call tree with interface calls resolved by class hierarchy over non-mock implementations, flow-insensitive, field-based, two-level Reach/Holds lattice): no store, map update, append, copy, delete, in-place sort or decode anywhere in the call trees of (*DocumentComposer).ApplyPatches and (*Applier).Apply targets memory reachable from their arguments (previous model and its document at any depth, anchored operation, patch values); values handed to external code go only to a reviewed read-only table; plus the atomic-failure shape: every return that may carry an error carries a nil document / nil model. Sound under the stated assumptions (no unsafe, no reflection writes; errors expose no mutable input reference). The applier-level clauses are the return-shape and provenance rules of C01, which run inside this check."}
 }
 
 func runC12(c *Ctx) {
